@@ -229,6 +229,8 @@ def build(repo=None):
         def visit_Attribute(self, n):
             if ast.unparse(n) == "self._max_nbytes":
                 return ast.copy_location(ast.Name(id="max_nbytes", ctx=ast.Load()), n)
+            if ast.unparse(n) == "self._mmap_mode":
+                return ast.copy_location(ast.Name(id="mmap_mode", ctx=ast.Load()), n)
             return self.generic_visit(n)
     test = Ren().visit(first[1].test)
     ast.fix_missing_locations(test)
@@ -236,9 +238,11 @@ def build(repo=None):
     # any depth) and kind (the character code; ord("O") = 79) are both parameters of the model
     tr = translate.Tr({"subst": {"a.dtype.hasobject": ("hasobject", "bool"), "a.nbytes": ("nbytes", "Z"),
                                  "a.dtype.kind": ("dtype_kind", "Z"), "'O'": ("(79)", "Z"), "'V'": ("(86)", "Z")}})
-    c, t, r = tr.truth(tr.expr(test, {"max_nbytes": ("max_nbytes", "optZ")}), test)
+    # mmap_mode: None ("disable memmapping") or Some code of the mode string
+    c, t, r = tr.truth(tr.expr(test, {"max_nbytes": ("max_nbytes", "optZ"), "mmap_mode": ("mmap_mode", "optZ")}), test)
     out.append(_definition("forward_memmaps", [("hasobject", "bool"), ("dtype_kind", "Z"), ("max_nbytes", "option Z"),
-                                               ("nbytes", "Z")], "bool", c if r else "Ok (%s)" % c))
+                                               ("mmap_mode", "option Z"), ("nbytes", "Z")], "bool",
+                           c if r else "Ok (%s)" % c))
     rets = [ast.unparse(n.value.elts[0]) for n in ast.walk(first[1]) if isinstance(n, ast.Return) and isinstance(n.value, ast.Tuple)]
     if rets != ["load_temporary_memmap", "loads"]:
         raise TranslateError("ArrayMemmapForwardReducer.__call__: unexpected returns %r" % rets)
